@@ -515,3 +515,6 @@ def sample_of(case):
 
 def known_match(case, failure, entry):
     return False
+
+
+RULE += (" " + "The single-file interface's own enumeration of file labels/descriptions (DFANgetfidlen/DFANgetfid, DFANgetfdslen/DFANgetfds until failure) must return exactly the file annotations of the model; a second ANcreate/ANcreatef of the same kind before the first new annotation is written is refused and must change nothing.")
